@@ -1080,6 +1080,71 @@ def fam_validconnect(out, tier, rnd):
                 drain(w, 2)
                 out.done(w)
 
+
+# ------------------------------------------------------------------------------------------------ small deterministic corners
+def fam_corners(out, tier, rnd):
+    """(a) a publish made while connecting whose retry timer expires 0, 1 or 2 times before the CONNACK, then the
+    acknowledgements; (b) more SUBSCRIBE / UNSUBSCRIBE requests pending than the window in force - the window shrunk, or
+    a persistent session resumed by a new protocol with the default window of 1 - and one more call     (C05, C07, C08, C10, C13)"""
+    def mid_of(w):
+        return next((e["mid"] for e in w.lines[-1]["fx"] if e["k"] == "ret"), -1)
+    for prof in ("pub", "both"):
+        for q in (1, 2):
+            for nexp in (0, 1, 2):
+                for clean in (True, False):
+                    w = out.world(prof)
+                    w.build(A); w.set(A, "onDisconnection", 1); w.set(A, "window", 2)
+                    w.connect(A, keepalive=0, cleanStart=clean)
+                    w.publish(A, "t", "early", q); m = mid_of(w)
+                    w.publish(A, "t", "early-b", 1); m2 = mid_of(w)
+                    n = 0
+                    while n < nexp and w.due() and w.in_range(w.due()[0]) and W.state_name(w.p[A]) == "ConnectingState":
+                        w.fire(w.due()[0]); n += 1
+                    if W.state_name(w.p[A]) == "ConnectingState" and w.t[A].phase == "open":
+                        w.recv(A, W.connack(0, 0))
+                        if q == 1:
+                            w.recv(A, W.ack("PUBACK", m))
+                        else:
+                            w.recv(A, W.ack("PUBREC", m)); w.recv(A, W.ack("PUBCOMP", m))
+                        if w.due() and w.in_range(w.due()[0]):
+                            w.fire(w.due()[0])
+                        w.recv(A, W.ack("PUBACK", m2))
+                    if w.t[A].phase != "lost":
+                        w.lost(A, "done")
+                    drain(w, 3); out.done(w)
+    for prof in ("sub", "both"):
+        for kind in ("subscribe", "unsubscribe"):
+            for how in ("shrunk", "resumed"):
+                w = out.world(prof)
+                w.build(A); w.set(A, "onDisconnection", 1); w.set(A, "window", 3)
+                w.connect(A, keepalive=0, cleanStart=False); w.recv(A, W.connack(0, 0))
+                ids = []
+                for j in range(3):
+                    if kind == "subscribe":
+                        w.subscribe(A, [("s/%d" % j, 1)])
+                    else:
+                        w.unsubscribe(A, ["s/%d" % j])
+                    ids.append(mid_of(w))
+                if how == "shrunk":
+                    w.set(A, "window", 2)
+                else:
+                    w.lost(A, "lost"); drain(w, 2)
+                    w.build(A); w.set(A, "onDisconnection", 1)          # window 1 by default
+                    w.connect(A, keepalive=0, cleanStart=False); w.recv(A, W.connack(0, 1))
+                for _ in range(2):                                       # refused: at least as many pending as the window
+                    if kind == "subscribe":
+                        w.subscribe(A, [("s/x", 0)])
+                    else:
+                        w.unsubscribe(A, ["s/x"])
+                for i in ids:
+                    if i > 0 and w.t[A].phase == "open":
+                        w.recv(A, W.suback(i, [1]) if kind == "subscribe" else W.ack("UNSUBACK", i))
+                if kind == "subscribe":
+                    w.subscribe(A, [("s/y", 2)])
+                else:
+                    w.unsubscribe(A, ["s/y"])
+                w.lost(A, "done"); drain(w, 3); out.done(w)
+
 # ------------------------------------------------------------------------------------------------ react (stage 3)
 def actions(w):
     """what an application may do from inside a callback"""
@@ -1221,7 +1286,7 @@ def main():
     outdir, fam, tier, seed = sys.argv[1], sys.argv[2], sys.argv[3], int(sys.argv[4])
     rnd = random.Random(seed)
     out = Out(outdir)
-    {"handshake": fam_handshake, "inject": fam_inject, "args": fam_args, "react": fam_react, "refused": fam_refused, "refstate": fam_refstate, "ids": fam_ids, "retrygrid": fam_retrygrid, "inbound2": fam_inbound2, "resume": fam_resume, "deadconnect": fam_deadconnect, "pktstate": fam_pktstate, "validconnect": fam_validconnect, "lossall": fam_lossall, "heldback": fam_heldback, "ka2": fam_ka2}[fam](out, tier, rnd)
+    {"handshake": fam_handshake, "inject": fam_inject, "args": fam_args, "react": fam_react, "refused": fam_refused, "refstate": fam_refstate, "ids": fam_ids, "retrygrid": fam_retrygrid, "inbound2": fam_inbound2, "resume": fam_resume, "deadconnect": fam_deadconnect, "pktstate": fam_pktstate, "corners": fam_corners, "validconnect": fam_validconnect, "lossall": fam_lossall, "heldback": fam_heldback, "ka2": fam_ka2}[fam](out, tier, rnd)
     out.close()
 
 
